@@ -4,7 +4,7 @@
 From Coq Require Import List NArith Bool Arith Sorted.
 From Coq Require Import Strings.Byte.
 Require Import BS.Bytes BS.Common BS.Api BS.Layout BS.Format BS.FormatFacts BS.Spec BS.SpecStep.
-Require Import BS.FS BS.FSFacts BS.Meta BS.MetaFacts BS.Header BS.Reader BS.ReaderFacts BS.Index BS.Data BS.DataFacts BS.Seek BS.Series BS.SeriesFacts.
+Require Import BS.FS BS.FSFacts BS.Meta BS.MetaFacts BS.Header BS.Reader BS.ReaderFacts BS.Index BS.Data BS.DataFacts BS.Seek BS.Series BS.SeriesFacts BS.TotalFacts.
 Import ListNotations.
 
 (* (I) under the representation invariant the accessors report the contents *)
@@ -19,3 +19,9 @@ Proof. exact payload_size_ok. Qed.
 Print Assumptions C12_payload_size.
 (* the invariant is preserved by appends (props/C03.v). partial: last_line, and re-establishing the
    invariant on open / repair / rebuild (C04-C06), are not proved yet. *)
+
+(* (I refines S) last_line is the last appended line; NoData for an empty series *)
+Theorem C12_last_line : forall fs sr p hdr ihdr l, RepH fs sr p hdr ihdr l ->
+  series_last_line sr fs = (fs, match last_opt l with Some x => Ok x | None => Err ENoData end).
+Proof. exact BS.TotalFacts.last_line_ok. Qed.
+Print Assumptions C12_last_line.
